@@ -92,9 +92,9 @@ def c11_all():
             j[-1].tier = "t"
             import copy
             q = copy.copy(j[-1])
-            q.args = dict(q.args, t=2)
+            q.args = dict(q.args, t=3, cvol=1)
             q.core, q.tier = True, "q"
-            q.bounds = q.bounds.replace("3 valid", "2 valid")
+            q.bounds = q.bounds + " — volumes fixed to 1, 2, 3, .. (price * volume stays linear)"
             j.append(q)
     return j
 
